@@ -7,6 +7,7 @@ CONSTANTS
   Exclusions = {"none", "orig", "other"}
   Percents = {"neither", "both", "minonly", "prefixonly"}
   ForgedKinds = {"none", "resp", "sig", "both"}
+  Outdated = {FALSE, TRUE}
   Variant = "intended"
 INVARIANTS TypeOK RespEqualsForwarded StationAgrees ForgedFieldsDropped OverridesOnlyIfAllowed SubstituteFromConfiguredSubnets EveryNonZeroSubnetUsed ExcludedNeverReplaced FamiliesAnswered
 CHECK_DEADLOCK FALSE
